@@ -2,7 +2,7 @@
    request is executed or skipped; what each step computes is C07). *)
 From Coq Require Import List String ZArith QArith Bool.
 From NV Require Import Base.Exn Base.PyVal Gen.Tables Model.Curve
-     Proofs.CurveP Proofs.CurveG Proofs.CurveC.
+     Proofs.CurveP Proofs.CurveG Proofs.CurveC Proofs.CurveH.
 Import ListNotations.
 Local Close Scope Q_scope.
 Local Open Scope string_scope.
@@ -42,3 +42,40 @@ Theorem C06_execute_or_skip : forall s p q r orc s' out ps,
   (ps = PNone /\ (s' = s \/ dhas "hash" (fp s') = false)) \/
   ((ps = PApplied \/ ps = PFailed) /\ dhas "hash" (fp s') = false).
 Proof. exact apply_pre_x_cases. Qed.
+
+(* an executed request leaves a curve that names exactly that request and
+   shows neither a fit nor a rating -- in every state it arrives in *)
+Theorem C06_applied_is_request : forall s p q r orc s' out,
+  apply_pre_x s p q r orc = (s', out, PApplied) ->
+  pre s' = match p with Some v => v | None => pre s end /\
+  popts s' = match q with Some v => v | None => popts s end /\
+  out = Done /\ rating s' = None /\ cols s' = false /\
+  (exists u, o_pre orc = Ok u).
+Proof. exact applied_is_request. Qed.
+
+(* a request is skipped only if it compares equal to the remembered one, and
+   then settings, columns, rating and details are untouched *)
+Theorem C06_skipped_means_equal : forall s p q r orc s' out,
+  apply_pre_x s p q r orc = (s', out, PSkipped) ->
+  exists po, assoc "preprocessing_options" (fp s) = Some po /\
+  py_eq (VList [dget "preprocessing" (fp s); po])
+        (VList [match p with Some v => v | None => pre s end;
+                match q with Some v => v | None => popts s end]) = true /\
+  fp s' = fp s /\ cols s' = cols s /\ rating s' = rating s /\ details s' = details s /\
+  out = Done.
+Proof. exact skipped_means_equal. Qed.
+
+(* history level: after ANY history of operations with ANY oracle answers, an
+   explicit request decides alone which pipeline the data columns were
+   produced by (ghost field gdata): the request itself when it is executed,
+   the raw data when it is refused, and nothing changes when it is skipped *)
+Theorem C06_request_decides_data : forall h g0 p o r orc,
+  let g := grun g0 h in
+  let g' := gstep g (ApplyPre (Some p) (Some o) r) orc in
+  forall s' out ps, apply_pre_x (cs g) (Some p) (Some o) r orc = (s', out, ps) ->
+  (ps = PApplied -> gdata g' = (p, o) /\ pre (cs g') = p /\ popts (cs g') = o /\ gres g' = None) /\
+  (ps = PFailed -> gdata g' = raw_pipe /\ pre (cs g') = VList [] /\ popts (cs g') = VDict [] /\
+                   gres g' = None) /\
+  (ps = PSkipped -> gdata g' = gdata g /\ gres g' = gres g) /\
+  (ps = PNone -> gdata g' = gdata g).
+Proof. exact request_decides_data. Qed.
